@@ -42,6 +42,7 @@ func (f FactT) String() string {
 }
 
 type Walker struct {
+	altMin int // callAlternatives: minimal number of returns of a callee to expand (default 2)
 	cx     *Ctx
 	ts     *Terms
 	frames int
@@ -739,6 +740,11 @@ func (ts *Terms) substTerm(t *Term, match func(*Term) bool, repl *Term) *Term {
 // variants of the term per return of that callee together with the facts at that
 // return. Returns nil when no such call is found.
 func (w *Walker) callAlternatives(fr *Frame, t *Term) []Alt {
+	// candidates: calls made in the frames of the chain whose result occurs in t;
+	// the outermost (largest term) is expanded
+	var bestCall *ssa.Call
+	var bestFrame *Frame
+	var bestTerm *Term
 	for f := fr; f != nil; f = f.Parent {
 		for _, b := range f.Fn.Blocks {
 			for _, ins := range b.Instrs {
@@ -750,40 +756,67 @@ func (w *Walker) callAlternatives(fr *Frame, t *Term) []Alt {
 				if g == nil || g.Blocks == nil || !isIrismodFunc(g) || onChain(f, g) {
 					continue
 				}
-				rets := returnsOf(g)
-				if len(rets) < 2 {
+				if len(returnsOf(g)) < w.minAltReturns() {
 					continue
 				}
 				ct := w.ts.Of(c, f)
 				if ct.Op != "call" || findSub(t, func(x *Term) bool { return x.Op == "call" && x.Site == ct.Site && x.Name == ct.Name }) == nil {
 					continue
 				}
-				nfr := &Frame{Fn: g, Parent: f, Call: c, Depth: f.Depth + 1}
-				var alts []Alt
-				for _, ret := range rets {
-					if isFailureReturn(ret) {
-						continue
-					}
-					// tuple of results: substitute extract(call, i)
-					var tuple *Term
-					if len(ret.Results) == 1 {
-						tuple = w.ts.Of(ret.Results[0], nfr)
-					} else {
-						tuple = &Term{Op: "tuple"}
-						for _, rv := range ret.Results {
-							tuple.Args = append(tuple.Args, w.ts.Of(rv, nfr))
-						}
-					}
-					nt := w.ts.substTerm(t, func(x *Term) bool { return x.Op == "call" && x.Site == ct.Site && x.Name == ct.Name }, tuple)
-					alts = append(alts, Alt{Val: nt, Facts: w.blockFacts(nfr, ret.Block(), 0)})
-				}
-				if len(alts) > 0 {
-					return alts
+				if bestTerm == nil || len(ct.String()) > len(bestTerm.String()) {
+					bestCall, bestFrame, bestTerm = c, f, ct
 				}
 			}
 		}
 	}
-	return nil
+	if bestCall == nil {
+		return nil
+	}
+	c, f, ct := bestCall, bestFrame, bestTerm
+	g := c.Common().StaticCallee()
+	nfr := &Frame{Fn: g, Parent: f, Call: c, Depth: f.Depth + 1}
+	var alts []Alt
+	for _, ret := range returnsOf(g) {
+		if isFailureReturn(ret) {
+			continue
+		}
+		var tuple *Term
+		if len(ret.Results) == 1 {
+			tuple = w.ts.Of(ret.Results[0], nfr)
+		} else {
+			tuple = &Term{Op: "tuple"}
+			for _, rv := range ret.Results {
+				tuple.Args = append(tuple.Args, w.ts.Of(rv, nfr))
+			}
+		}
+		nt := w.ts.substTerm(t, func(x *Term) bool { return x.Op == "call" && x.Site == ct.Site && x.Name == ct.Name }, tuple)
+		alts = append(alts, Alt{Val: nt, Facts: w.blockFacts(nfr, ret.Block(), 0)})
+	}
+	return alts
+}
+
+func (w *Walker) minAltReturns() int {
+	if w.altMin > 0 {
+		return w.altMin
+	}
+	return 2
+}
+
+// expandCalls replaces results of irismod calls (made in the frames of the chain)
+// that have exactly one non-failing return by the returned term, repeatedly, so
+// that values built by helper functions show their structure.
+func (w *Walker) expandCalls(fr *Frame, t *Term, rounds int) *Term {
+	old := w.altMin
+	w.altMin = 1
+	defer func() { w.altMin = old }()
+	for i := 0; i < rounds; i++ {
+		alts := w.callAlternatives(fr, t)
+		if len(alts) != 1 || alts[0].Val.String() == t.String() {
+			break
+		}
+		t = alts[0].Val
+	}
+	return t
 }
 
 // closureAncestor: the nearest enclosing closure frame of an event (the
